@@ -36,14 +36,14 @@ func init() { register("C09", runC09) }
 // vocabulary
 
 var (
-	c09NamePats = []string{"Foo", "Foo.*", "Foo|Bar", ".*Bar", "(Foo|rec:.+)", "[A-Z].+", "bar|Foo", "^Foo$", "Fo{2}", ".+", "rec:foo|Bar", "Foo(Bar)?", "x|FooBar|y", "[^:]+", "Bar|", "Fo+|B"}
+	c09NamePats = []string{"Foo", "Foo.*", "Foo|Bar", ".*Bar", "(Foo|rec:.+)", "[A-Z].+", "bar|Foo", "^Foo$", "Fo{2}", ".+", "rec:foo|Bar", "Foo(Bar)?", "x|FooBar|y", "[^:]+", "Bar|", "Fo+|B", "^Foo|Bar$", "^Foo$|^Bar$", "^(Foo|Bar)$", "^rec:|B$", "^Fo|ar$"}
 	c09Names    = []string{"Foo", "FooBar", "Bar", "rec:foo", "xBar", "Foobaz", "B"}
-	c09PathPats = []string{"rules/.*", "rules/a.yml|x", ".*\\.yml", "rules/sub/.+", "rules/a.yml", "sub|rules/a\\.yml", "rules/(a|b)\\.yml", "rules"}
+	c09PathPats = []string{"rules/.*", "rules/a.yml|x", ".*\\.yml", "rules/sub/.+", "rules/a.yml", "sub|rules/a\\.yml", "rules/(a|b)\\.yml", "rules", "^rules/a|b\\.yml$", "^rules/a\\.yml$|^rules/b\\.yml$", "^rules/sub|yml$"}
 	c09Paths    = []string{"rules/a.yml", "rules/sub/b.yml", "rules/b.yml"}
 	c09LabKeys  = []string{"team", "severity", "env"}
 	c09LabVals  = []string{"x", "y", "page", "prod", "xy"}
-	c09KeyPats  = []string{"team", "team|env", "sev.*", ".*", "t.+m", "env|", "team|severity", ".*e.*", "(env|severity)", "[a-z]+", "eam", "ever.*", "nv", "sev"}
-	c09ValPats  = []string{"x", "x|y", "page", ".+", "p.*", "y|prod", "(x|page)", "ag", "ro", "pag"}
+	c09KeyPats  = []string{"team", "team|env", "sev.*", ".*", "t.+m", "env|", "team|severity", ".*e.*", "(env|severity)", "[a-z]+", "eam", "ever.*", "nv", "sev", "^te|nv$", "^team$|^env$", "^(team|env)$"}
+	c09ValPats  = []string{"x", "x|y", "page", ".+", "p.*", "y|prod", "(x|page)", "ag", "ro", "pag", "^pa|od$", "^x$|^page$", "^p|y$"}
 	c09AnnKeys  = []string{"summary", "link", "runbook"}
 	c09AnnVals  = []string{"s", "http://x", "ok", "page"}
 	c09ForPats  = []string{"5m", "> 1m", "<= 5m", "!= 0s", ">= 10m", "< 1h", "= 5m", "0", "> 0", ">= 5m", "> 5m", "< 5m", "!= 5m", ">= 1m", "<= 1m", "< 10m", "<= 10m", "> 10m", "= 1h", ">= 1h", "<= 0s", "> 0s"}
@@ -780,7 +780,7 @@ func runC09(args []string) int {
 			pats = append(pats, a+b)
 		}
 	}
-	pats = append(pats, "foo|bar", "|foo", "foo|", "a|b|c")
+	pats = append(pats, "foo|bar", "|foo", "foo|", "a|b|c", "^foo|bar$", "^foo$|^bar$", "^(foo|bar)$", "^fo|ar$", "^a|c$")
 	for _, p := range c09Uniq(pats) {
 		re, err := regexp.Compile("^(?:" + p + ")$")
 		if err != nil {
